@@ -78,7 +78,9 @@ func TypeOf(x interface{}) (string, error) {
 	}
 
 	switch x.(type) {
-	case *interface{}:
+	case nil, *interface{}:
+		// JSON null: a nil pointer where the evaluator
+		// produced it, a plain nil inside input data.
 		return "null", nil
 	}
 
